@@ -6,6 +6,7 @@ package main
 import (
 	"flag"
 	"fmt"
+	"go/token"
 	"math"
 	"math/big"
 	"math/rand"
@@ -61,11 +62,13 @@ type G struct {
 	prelude *strings.Builder
 	qs      []*strings.Builder
 	qtypes  [][]*ty.Ty
+	lastPkg int          // the derive package elemOps placed its last element type in
 	qshadow map[int]bool // packages that import the user packages named like standard ones
 	stats   map[string]int
 	want    map[string]bool
 	maxLen  int
 	nRandom int
+	noTwo   bool // the current element type gets no two-value min / max (its argument lists would be ambiguous)
 	force   int  // >= 0: the derive package every placement goes to (shadow-import packages)
 	shadow  bool // the corpus holds the user packages named strings / sort / bytes
 }
@@ -523,6 +526,7 @@ func (g *G) elemOps(i int, t *ty.Ty) {
 	fmt.Fprintf(g.prelude, "ty %s %s\n", tn, t.Wire())
 	gt := t.Go(env, "main")
 	qi := g.pkgOf(t)
+	g.lastPkg = qi
 	q, qn := g.qs[qi], fmt.Sprintf("q%d", qi)
 	g.stat("elem-head:"+kindName(env.Under(t).K), 1)
 	pool := g.elemPool(t)
@@ -559,9 +563,11 @@ func (g *G) elemOps(i int, t *ty.Ty) {
 			}
 			M := strings.ToUpper(mm[:1]) + mm[1:]
 			w("\nfunc %s_%d(l []%s, d %s) %s { return derive%s_%d(l, d) }\n", M, i, gt, gt, gt, M, i)
-			w("func %s2_%d(a, b %s) %s { return derive%s2_%d(a, b) }\n", M, i, gt, gt, M, i)
 			reg(mm, fmt.Sprintf("rt.Min(%s.%s_%d)", qn, M, i))
-			reg(mm+"2", fmt.Sprintf("rt.Min2(%s.%s2_%d)", qn, M, i))
+			if !g.noTwo {
+				w("func %s2_%d(a, b %s) %s { return derive%s2_%d(a, b) }\n", M, i, gt, gt, M, i)
+				reg(mm+"2", fmt.Sprintf("rt.Min2(%s.%s2_%d)", qn, M, i))
+			}
 			for li, l := range lists {
 				g.ow.op(mm, tn, g.inst(l).Wire(), g.vg.Inst(pool[0]).Wire())
 				if li%4 == 0 {
@@ -569,6 +575,9 @@ func (g *G) elemOps(i int, t *ty.Ty) {
 				}
 			}
 			for _, a := range pool {
+				if g.noTwo {
+					break
+				}
 				for _, b := range pool {
 					g.ow.op(mm+"2", tn, g.vg.Inst(a).Wire(), g.vg.Inst(b).Wire())
 				}
@@ -577,7 +586,7 @@ func (g *G) elemOps(i int, t *ty.Ty) {
 					g.ow.op(mm+"2", tn, v.Wire(), g.vg.Inst(a).Wire())
 				}
 			}
-			if vt := g.viewTmpl(t); vt != nil {
+			if vt := g.viewTmpl(t); vt != nil && !g.noTwo {
 				for _, sh := range [][]int{{1, 3}, {3, 1}, {2, 2}, {2, -2}, {4, 3}, {-3, 4}} {
 					vs := g.views(vt, sh)
 					g.ow.op(mm+"2", tn, vs[0].Wire(), vs[1].Wire())
@@ -796,6 +805,61 @@ func (g *G) elemOps(i int, t *ty.Ty) {
 		for _, c := range cases {
 			g.stat(fmt.Sprintf("join-outer-len:%d", len(c.Elems)), 1)
 			g.ow.op("join", tn, c.Wire())
+		}
+	}
+}
+
+// cmpOps: sort / min / max decided against the EMITTED Compare of the element type on the emitted functions
+// themselves (sortcmp, mincmp, maxcmp, min2cmp, max2cmp): for element types whose own Compare method the Lean
+// model does not know (own == true: the type gets its own name and package here, and no other op), and in
+// addition to the modelled ops for every element type that is compared through deriveCompare.
+func (g *G) cmpOps(i int, t *ty.Ty, own bool) {
+	env := g.env
+	if isBasicUnder(env, t) || !(g.want["sort"] || g.want["min"] || g.want["max"]) {
+		return
+	}
+	tn := fmt.Sprintf("L%d", i)
+	gt := t.Go(env, "main")
+	var qi int
+	if own {
+		fmt.Fprintf(g.prelude, "ty %s %s\n", tn, t.Wire())
+		qi = g.pkgOf(t)
+	} else {
+		qi = g.lastPkg
+	}
+	q, qn := g.qs[qi], fmt.Sprintf("q%d", qi)
+	w := func(format string, a ...interface{}) { fmt.Fprintf(q, format, a...) }
+	reg := func(op, expr string) { fmt.Fprintf(g.m, "\trt.Reg(%q, %q, %s)\n", op, tn, expr) }
+	pool := g.elemPool(t)
+	lists := g.lists(t, pool)
+	w("\nfunc Cmp_%d(a, b %s) int { return deriveCompare_%d(a, b) }\n", i, gt, i)
+	if g.want["sort"] {
+		w("func CSort_%d(l []%s) []%s { return deriveSort_%d(l) }\n", i, gt, gt, i)
+		reg("sortcmp", fmt.Sprintf("rt.SortCmp(%s.CSort_%d, %s.Cmp_%d)", qn, i, qn, i))
+		for _, l := range lists {
+			g.ow.op("sortcmp", tn, g.inst(l).Wire())
+		}
+	}
+	for _, mm := range []string{"min", "max"} {
+		if !g.want[mm] {
+			continue
+		}
+		M := strings.ToUpper(mm[:1]) + mm[1:]
+		dir := map[string]int{"min": 1, "max": -1}[mm]
+		w("func C%s_%d(l []%s, d %s) %s { return derive%s_%d(l, d) }\n", M, i, gt, gt, gt, M, i)
+		reg(mm+"cmp", fmt.Sprintf("rt.MinCmp(%s.C%s_%d, %s.Cmp_%d, %d)", qn, M, i, qn, i, dir))
+		for _, l := range lists {
+			g.ow.op(mm+"cmp", tn, g.inst(l).Wire(), g.vg.Inst(pool[g.rng.Intn(len(pool))]).Wire())
+		}
+		if g.noTwo {
+			continue
+		}
+		w("func C%s2_%d(a, b %s) %s { return derive%s2_%d(a, b) }\n", M, i, gt, gt, M, i)
+		reg(mm+"2cmp", fmt.Sprintf("rt.Min2Cmp(%s.C%s2_%d, %s.Cmp_%d, %d)", qn, M, i, qn, i, dir))
+		for _, a := range pool {
+			for _, b := range pool {
+				g.ow.op(mm+"2cmp", tn, g.vg.Inst(a).Wire(), g.vg.Inst(b).Wire())
+			}
 		}
 	}
 }
@@ -1076,8 +1140,35 @@ func main() {
 		&ty.Decl{Name: "Word", Pkg: "strings", Under: b("string")},
 		&ty.Decl{Name: "Key", Pkg: "sort", Under: b("int")},
 		&ty.Decl{Name: "B", Pkg: "bytes", Under: ty.Sl(b("byte"))},
-		&ty.Decl{Name: "NU64", Pkg: "", Under: b("uint64")})
-	word, key, bb, nu64 := n(shadow0), n(shadow0+1), n(shadow0+2), n(shadow0+3)
+		// a recursive named slice: []RT is assignable to RT, so (a, b []RT) also fits the list form (list []RT, def RT)
+		&ty.Decl{Name: "RT", Pkg: "", Under: ty.Sl(n(shadow0 + 3))},
+		// a struct whose own Compare (pointer parameter) orders by the first field DESCENDING: the order of derived
+		// Compare on RC values is not the field order. The Lean model does not know this method: only the
+		// consistency ops (sortcmp, …) run on it
+		&ty.Decl{Name: "RC", Pkg: "", Under: ty.St(ty.F("A", b("int")), ty.F("B", b("string")))})
+	word, key, bb, rt, rc := n(shadow0), n(shadow0+1), n(shadow0+2), n(shadow0+3), n(shadow0+4)
+	nu64 := n(46)
+	localSrc := map[string]string{"RC": `
+func (this *RC) Compare(that *RC) int {
+	if this == nil {
+		if that == nil {
+			return 0
+		}
+		return -1
+	}
+	if that == nil {
+		return 1
+	}
+	if this.A > that.A {
+		return -1
+	}
+	if this.A < that.A {
+		return 1
+	}
+	return 0
+}
+
+`}
 	// element types: basics (incl. bool and complex, which have no <), named basics (incl. a named bool), comparable struct, pointers to structs, slices, a struct
 	// with pointers, a recursive and an imported struct behind pointers
 	elems := []*ty.Ty{b("int"), b("int64"), b("uint8"), b("string"), b("float64"), b("bool"), n(0), n(1), n(2),
@@ -1089,7 +1180,11 @@ func main() {
 		ty.Sl(n(2)), p(n(2)), p(n(36)),
 		// unsigned 64-bit integers (values at and above 1<<63 must not be ordered as negative ints), also named
 		// and as map keys behind Compare (which sorts the keys); floats inside comparable and non-comparable values
-		b("uint64"), b("uint"), b("uintptr"), nu64, ty.M(b("uint64"), b("int")), b("float32"), n(15), ty.Sl(b("float64")), p(b("float64"))}
+		b("uint64"), b("uint"), b("uintptr"), nu64, ty.M(b("uint64"), b("int")), b("float32"), n(15), ty.Sl(b("float64")), p(b("float64")),
+		// types with their own Equal / Compare / Hash methods (pointer receivers; they look at the first field only, so
+		// Equal is coarser than the fields) as VALUE elements, behind pointers and slices and inside a struct;
+		// a recursive named slice as element of the two-value forms
+		n(31), p(n(31)), ty.Sl(n(31)), n(33), ty.Sl(rt)}
 	keys := []*ty.Ty{b("int"), b("string"), n(0), n(5), ty.Ar(2, b("int")), b("float64"), b("float32"), b("complex128"), n(2), b("uint64")}
 	// int32 = rune: a rune -> rune mapping must not be special-cased (negative, surrogate, > MaxRune results)
 	results := []*ty.Ty{b("int"), b("string"), p(n(5)), ty.Sl(b("int")), n(5), b("bool"), b("float64"), n(1), b("int32")}
@@ -1119,6 +1214,10 @@ func main() {
 	for _, d := range env.Decls {
 		if d.Pkg == "" {
 			fmt.Fprintf(&pp, "type %s %s\n", d.Name, d.Under.Go(env, ""))
+			if d.Methods != "" {
+				pp.WriteString("\n" + gen.MethodSrc(d))
+			}
+			pp.WriteString(localSrc[d.Name])
 		}
 	}
 	write(filepath.Join(*out, "p", "p.go"), pp.String())
@@ -1135,12 +1234,15 @@ func main() {
 		if d.Under.K == ty.Struct {
 			flags += "m"
 			for _, f := range d.Under.Fields {
-				if f.Name[0] >= 'a' && f.Name[0] <= 'z' {
+				if !token.IsExported(f.Name) {
 					flags += "1"
 				} else {
 					flags += "0"
 				}
 			}
+		}
+		if d.Methods != "" {
+			flags += "." + d.Methods
 		}
 		if flags == "" {
 			flags = "-"
@@ -1161,6 +1263,7 @@ func main() {
 	if perElem {
 		for i, t := range elems {
 			g.elemOps(i, t)
+			g.cmpOps(i, t, false)
 		}
 		// two packages that import the shadow packages: in the first the user's strings / sort / bytes are
 		// mentioned before the generated code needs the standard ones, in the second after
@@ -1187,6 +1290,21 @@ func main() {
 		}
 		g.force = -1
 		g.stat("shadow-import-packages", 2)
+		if want["sort"] || want["min"] || want["max"] {
+			// the list form of min / max with (list []RT, default RT): no two-value form beside it, (RT, RT) and
+			// ([]RT, RT) are mutually assignable argument lists
+			g.noTwo = true
+			g.elemOps(idx, rt)
+			g.cmpOps(idx, rt, false)
+			g.noTwo = false
+			idx++
+			// element types with a Compare method of another order than the fields (value elements), and with a
+			// Compare taking an interface: consistency ops only
+			for _, t := range []*ty.Ty{rc, n(39)} {
+				g.cmpOps(idx, t, true)
+				idx++
+			}
+		}
 	}
 	if want["keys"] || want["union"] || want["intersect"] {
 		for i, k := range keys {
